@@ -46,6 +46,7 @@ PANIC_TABLE = {}
 for _e, _m in MODS.items():
     PANIC_TABLE[("%s::%s::index_const" % (_m, _e), "panic", "panic_fmt")] = "documented: panics if the index is out of bounds"
     PANIC_TABLE[("%s::%s::index::{closure#0}" % (_m, _e), "panic", "panic_fmt")] = "documented: panics if the index is out of bounds"
+    PANIC_TABLE[("%s::%s::index" % (_m, _e), "panic", "panic_fmt")] = "documented: panics if the index is out of bounds"
 PANIC_TABLE[("square::Square::offset", "panic", "panic_fmt")] = "documented: panics if the offset leaves the board (try_offset is the total variant)"
 
 TOTAL_CORE = (
@@ -258,6 +259,22 @@ def run(ctx):
         b, ps = rpaths(f, name)
         seen = {}
         other = None
+        if not all(len([c for c in p.conds if c[0] == P("index")]) == 1 for p in ps):
+            # not a switch on the index (e.g. `if index < NUM { Some(ALL[index]) } else { None }`): decided by evaluating
+            # the paths for every index 0..NUM+2 and for indexes far outside (the function of one bounded argument)
+            bad_ = []
+            for idx in list(range(n + 3)) + [255, 256, 1 << 16, 1 << 32, (1 << 64) - 1]:
+                try:
+                    got = conc.eval_paths(ps, {P("index"): idx}, NV)
+                except Stuck as e_:
+                    bad_.append((idx, str(e_)[:60]))
+                    continue
+                want_ = ("some", idx) if idx < n else ("none",)
+                if got != want_:
+                    bad_.append((idx, got))
+            ctx.check(not bad_, "try_index:%s" % en, "try_index of %s does not map k to the variant with discriminant k (and everything else to None): %s" % (en, bad_[:4]),
+                      loc(b), sample={"enum": en, "evaluated indexes": n + 8})
+            continue
         for p in ps:
             c = [c for c in p.conds if c[0] == P("index")]
             if len(c) != 1:
